@@ -33,9 +33,7 @@ def attrRefs (pos : Nat → Nat) : SCodeAttr → List Nat
   | .lvtt _ es => es.flatMap (fun v => [pos v.start, pos v.end_])
   | .unknown _ _ _ => []
 
-def isFramesAttr : SCodeAttr → Bool
-  | .frames _ _ => true
-  | _ => false
+abbrev isFramesAttr : SCodeAttr → Bool := SCodeAttr.isFrames
 
 theorem sum_map_const {α : Type} (k : Nat) (xs : List α) : (xs.map (fun _ => k)).sum = k * xs.length := by
   induction xs with
